@@ -79,7 +79,7 @@ var c04Cancelled = func() context.Context {
 	return ctx
 }()
 
-var c04Fronts = []string{"info", "log", "check", "sugarw", "sugarf", "sugarln", "sugar", "child-with", "child-named", "child-lazy", "stdlog", "zapio", "slog", "slog-cancelled", "slog-group",
+var c04Fronts = []string{"info", "log", "check", "sugarw", "sugarf", "sugarln", "sugar", "child-with", "child-named", "child-lazy", "stdlog", "zapio", "slog", "slog-cancelled", "slog-group", "legacy-text", "legacy-text",
 	"reflect", "reflect", "errors", "object", "child-reflect", "shared-reflect", "shared-reflect", "reflect-fail", "reflect-fail", "errors", "errors-fault"}
 
 // every caller annotation in a C04 program is "<dir>/<file>.go:<line>" of the harness, zap or the standard library
@@ -383,6 +383,11 @@ func c04Run(t interface{ Fatalf(string, ...any) }, p *c04Program) (alternations 
 					mine.Info(tok, zap.Object("obj", c04Obj{g, strings.Repeat(string(rune('a'+g%26)), o.Pad)}), zap.Objects("objs", []c04Obj{{g, ""}, {g, "x"[:0]}}))
 				case "stdlog":
 					std.Print(tok)
+				case "legacy-text":
+					// text that is not UTF-8 (Latin-1, UTF-16 byte-order marks, truncated runes, binary payloads) with line
+					// breaks, quotes and backslashes right after the ill-formed bytes: still one line per entry
+					mine.Warn(tok, zap.String("lat", "R\xe9sum\xe9\n"), zap.ByteString("bs", []byte{0xff, '"', 0xfe, '\\', 0xc0, '\n', 0xe2, 0x82, '\t', 0xed, 0xa0, 0x80, '\r'}),
+						zap.String("bom", "\xff\xfe\r\nnext"), zap.Int("seq", seq))
 				case "slog":
 					sl.Info(tok, "seq", seq)
 				case "slog-cancelled":
